@@ -886,7 +886,19 @@ func (p *Prog) fieldAccesses(f *types.Var) []fieldAccess {
 							out = append(out, fieldAccess{Fn: fn, In: y, Addr: true, Base: base})
 						}
 					case *ssa.UnOp:
-						out = append(out, fieldAccess{Fn: fn, In: y, Base: base})
+						// a loaded map that is updated or deleted from is a write of the guarded state
+						w := false
+						if rr := y.Referrers(); rr != nil {
+							for _, u := range *rr {
+								if mu, ok := u.(*ssa.MapUpdate); ok && mu.Map == ssa.Value(y) {
+									w = true
+								}
+								if isBuiltin(u, "delete") && callOf(u).Args[0] == ssa.Value(y) {
+									w = true
+								}
+							}
+						}
+						out = append(out, fieldAccess{Fn: fn, In: y, Write: w, Base: base})
 					case *ssa.DebugRef:
 					case *ssa.FieldAddr, *ssa.IndexAddr:
 						// nested access into a struct/array-valued field: element-level; classify by its uses
